@@ -560,6 +560,8 @@ def _b_list(I, ctx, fr, args, kwargs, node):
     a = I.resolve(ctx, args[0])
     if isinstance(a, (VZip, VUnzipped)):
         return a
+    if isinstance(a, VObj):
+        return I.engine.unknown_outcome(ctx, 'list', node)
     items, q = seq_of_iterable(I, ctx, a, node)
     if fr.spec:
         return VTuple(items) if items is not None else VSeq(q[0], q[1])
@@ -582,6 +584,9 @@ def _b_dict(I, ctx, fr, args, kwargs, node):
     if not args:
         return ctx.alloc(HDict(conc=dict(kwargs)))
     a0 = I.resolve(ctx, args[0])
+    if isinstance(a0, VObj):
+        # dict(<opaque object>): whatever its __iter__/keys protocol does
+        return I.engine.unknown_outcome(ctx, 'dict', node)
     if isinstance(a0, VPairs):
         d = ctx.alloc(HDict(dom=a0.dom, arr=a0.arr, kt=a0.kt, vt=a0.vt))
         for k, x in kwargs.items():
